@@ -29,7 +29,8 @@ func init() {
 	register("C09", "lists of 1..4 types: every list of <=3 types of size<=2 over {bool number string placeholder emptytuple emptyobject; list set map tuple1 object{a}} is enumerated, each returned conversion applied to "+
 		"known / null / unknown / marked values of its input type; random lists of 1..4 types to depth 3 (thorough 4) built from one base type by kind changes, element conversions, attribute changes and inserted placeholders, "+
 		"every permutation of sampled multisets, map-before-object and object-before-map orders, mixed-kind lists whose preferred candidate is rejected by a late input; values known, null, refined unknown, marked, nested. "+
-		"non-trivial = a returned non-nil conversion applied to a value; distinct = distinct wire strings of (mode, type list, slot, value)", runC09)
+		"placeholder-free structural lists (objects / tuples / collections sharing one skeleton, depth 1..3, a list among tuples / a map among objects) whose unified type is checked to be placeholder-free (d09b). "+
+		"non-trivial = a returned non-nil conversion applied to a value, or the unified type of a placeholder-free list inspected; distinct = distinct wire strings of (mode, type list, slot, value)", runC09)
 }
 
 type c09Res struct {
